@@ -256,7 +256,9 @@ def factory_denotation(f: Func, slots: Dict[str, str]) -> Dict[str, Any]:
                 fs = 'partial'
             if fs in ('import_if_custom', 'checkraise_kwargs', 'select_kwargs', 'partial',
                       'inspect.signature'):
-                order.append(fs)
+                # inspect.signature is pure: reading it again changes nothing
+                if not (fs == 'inspect.signature' and order and order[-1] == fs):
+                    order.append(fs)
             if fs == 'checkraise_kwargs':
                 check = canon(w.expand(e.node))
         if e.kind == 'load' and src(e.node.value).endswith('_function_registry'):
@@ -366,6 +368,45 @@ def registration_loop(gm, ids: Dict[str, str]):
         if pkg != 'gym_gridverse' or path != f'registered_envs/{fname}' or rid != gid:
             return False, f'id {gid} registers `{rid}` with resource {pkg}:{path}'
     return True, ''
+
+
+def validates_first(index: RepoIndex, f: Func, dp: str) -> Tuple[bool, str]:
+    """the raw input `dp` is consumed only by `schemas[<key>].validate(dp)`, unconditionally:
+    up to (and including) the statement that rebinds `dp` -- or everywhere when it is never
+    rebound -- every read of `dp` is the argument of such a call at the top level of the
+    function (module-local helpers inlined), and there is one"""
+    from ..view import view
+    node, _w, _inl = view(index, f)
+    top = list(node.body)
+    upto = len(top)
+    for i, st in enumerate(top):
+        stores = [n for n in ast.walk(st) if isinstance(n, ast.Name) and n.id == dp
+                  and isinstance(n.ctx, ast.Store)]
+        if stores:
+            if not (isinstance(st, ast.Assign) and len(st.targets) == 1
+                    and isinstance(st.targets[0], ast.Name)):
+                return False, src(st)[:80]
+            upto = i + 1
+            break
+    n_valid = 0
+    for st in top[:upto]:
+        valid_args = set()
+        for n in ast.walk(st):
+            if isinstance(n, ast.Call) and re.fullmatch(r"schemas\['\w+'\]\.validate",
+                                                       src(n.func)) and \
+                    len(n.args) == 1 and not n.keywords and isinstance(n.args[0], ast.Name) \
+                    and n.args[0].id == dp:
+                valid_args.add(id(n.args[0]))
+                if isinstance(st, (ast.Assign, ast.AnnAssign, ast.Expr, ast.Return)) and \
+                        (st.value is n):
+                    n_valid += 1
+        for n in ast.walk(st):
+            if isinstance(n, ast.Name) and n.id == dp and isinstance(n.ctx, ast.Load) and \
+                    id(n) not in valid_args:
+                return False, src(st)[:80]
+    if n_valid < 1:
+        return False, 'no unconditional schemas[..].validate(input)'
+    return True, 'validate first'
 
 
 def run(index: RepoIndex, rep) -> None:
@@ -497,7 +538,9 @@ def run(index: RepoIndex, rep) -> None:
                 fs = 'partial'
             if fs in ('import_if_custom', 'checkraise_kwargs', 'select_kwargs', 'partial',
                       'inspect.signature'):
-                order.append(fs)
+                # inspect.signature is pure: reading it again changes nothing
+                if not (fs == 'inspect.signature' and order and order[-1] == fs):
+                    order.append(fs)
         if e.kind == 'load' and src(e.node.value).endswith('_function_registry'):
             order.append('lookup')
     want = ['import_if_custom', 'lookup', 'inspect.signature', 'checkraise_kwargs',
@@ -559,17 +602,9 @@ def run(index: RepoIndex, rep) -> None:
         if not name.startswith('factory_') or name == 'factory_env_from_yaml':
             continue
         n_fact += 1
-        w = walk_function(f.node)
         dp = f.node.args.args[0].arg
-        rb = [d for d in w.defs.get(dp, []) if d[0] == 'value']
-        ok = len(rb) == 1 and re.fullmatch(rf"schemas\['\w+'\]\.validate\({dp}\)", src(rb[0][1])) \
-            and rb[0][3] == ('true',)
-        first_use = min([e.order for e in w.events
-                         if e.kind in ('call', 'load') and dp in
-                         {n.id for n in ast.walk(e.node) if isinstance(n, ast.Name)}
-                         and not (ok and e.node is rb[0][1])] or [10 ** 9])
-        rep.check(bool(ok) and rb[0][2] < first_use + 2, 'C17.R5', FACTORY, name,
-                  f.node.lineno, src(rb[0][1]) if rb else '',
+        ok, why = validates_first(index, f, dp)
+        rep.check(ok, 'C17.R5', FACTORY, name, f.node.lineno, why,
                   f'{name} does not rebind its input to a validated copy before using it',
                   f'{name}: validates first')
         s = eff.summary(f)
